@@ -11,7 +11,8 @@ class C05(rowgen.RowGenProp):
     theorems = ["Wheatley.C05.reset_is_init", "Wheatley.C05.second_touch_fresh",
                 "Wheatley.C05.touch_after_reset_fresh", "Wheatley.C05.method_start_resets",
                 "Wheatley.C05.idle_is_fresh", "Wheatley.C05.every_touch_starts_afresh",
-                "Wheatley.C05.method_generator_is_a_fresh_one"]
+                "Wheatley.C05.method_generator_is_a_fresh_one",
+                "Wheatley.C05.pending_thats_all_cancels_start"]
     level_text = ("theorems: reset() of every state equals the freshly constructed generator, hence the rows after a "
                   "reset equal a fresh generator's rows for every pair of histories (unbounded); system level: from any "
                   "idle Bot with its generator in ANY state, in every state of every run on any events, whenever the "
